@@ -1,4 +1,203 @@
-//! stream `per` — not implemented yet
-pub fn handle(_args: &[&str]) -> Option<String> {
-    None
+//! stream `per` (L1): `PackedRead`/`PackedWrite` of per/unaligned/mod.rs on `BitBuffer` / `Bits`
+use crate::util::*;
+use asn1rs::protocol::per::unaligned::buffer::{BitBuffer, Bits};
+use asn1rs::protocol::per::unaligned::ScopedBitRead;
+use asn1rs::protocol::per::{Error, PackedRead, PackedWrite};
+
+pub fn bits_to_string(bytes: &[u8], bit_len: usize) -> String {
+    if bit_len == 0 {
+        return "-".to_string();
+    }
+    let mut s = String::with_capacity(bit_len);
+    for i in 0..bit_len {
+        s.push(if bytes[i / 8] & (0x80 >> (i % 8)) != 0 { '1' } else { '0' });
+    }
+    s
+}
+
+pub fn string_to_bits(s: &str) -> Option<(Vec<u8>, usize)> {
+    if s == "-" {
+        return Some((Vec::new(), 0));
+    }
+    let mut bytes = vec![0u8; (s.len() + 7) / 8];
+    for (i, c) in s.bytes().enumerate() {
+        match c {
+            b'1' => bytes[i / 8] |= 0x80 >> (i % 8),
+            b'0' => {}
+            _ => return None,
+        }
+    }
+    Some((bytes, s.len()))
+}
+
+/// FNV-1a (64 bit) over the bits, one octet (0/1) per bit, then the bit length
+pub fn fnv_bits(bytes: &[u8], bit_len: usize) -> u64 {
+    let mut h: u64 = 0xcbf29ce484222325;
+    for i in 0..bit_len {
+        let b = (bytes[i / 8] >> (7 - i % 8)) & 1;
+        h ^= b as u64;
+        h = h.wrapping_mul(0x100000001b3);
+    }
+    h
+}
+
+pub fn gen_bytes(n: usize, seed: u64) -> Vec<u8> {
+    (0..n as u64)
+        .map(|i| (i.wrapping_mul(37).wrapping_add(seed.wrapping_mul(101)).wrapping_add(i >> 8) & 0xff) as u8)
+        .collect()
+}
+
+fn w<T, F: FnOnce(&mut BitBuffer) -> Result<T, Error>, G: FnOnce(T) -> String>(f: F, g: G) -> String {
+    let mut b = BitBuffer::default();
+    match f(&mut b) {
+        Ok(t) => {
+            let extra = g(t);
+            let bits = bits_to_string(b.content(), b.bit_len());
+            if extra.is_empty() {
+                format!("ok {}", bits)
+            } else {
+                format!("ok {} {}", bits, extra)
+            }
+        }
+        Err(e) => format!("err {}", per_err(&e)),
+    }
+}
+
+fn r<T, F: FnOnce(&mut Bits<'_>) -> Result<T, Error>, G: FnOnce(T) -> String>(bits: &str, f: F, g: G) -> Option<String> {
+    let (bytes, len) = string_to_bits(bits)?;
+    let mut rd = Bits::from((&bytes[..], len));
+    Some(match f(&mut rd) {
+        Ok(t) => format!("ok {} {}", g(t), rd.pos()),
+        Err(e) => format!("err {}", per_err(&e)),
+    })
+}
+
+pub fn handle(args: &[&str]) -> Option<String> {
+    Some(match args {
+        ["w-nnbi", lb, ub, v] => {
+            let (lb, ub, v) = (opt_u64(lb)?, opt_u64(ub)?, v.parse().ok()?);
+            w(|b| b.write_non_negative_binary_integer(lb, ub, v), |_| String::new())
+        }
+        ["w-len", lb, ub, v] => {
+            let (lb, ub, v) = (opt_u64(lb)?, opt_u64(ub)?, v.parse().ok()?);
+            w(|b| b.write_length_determinant(lb, ub, v), |f| match f {
+                None => "none".to_string(),
+                Some(x) => x.to_string(),
+            })
+        }
+        ["w-2s", bl, v] => {
+            let (bl, v) = (bl.parse().ok()?, v.parse().ok()?);
+            w(|b| b.write_2s_compliment_binary_integer(bl, v), |_| String::new())
+        }
+        ["w-con", lb, ub, v] => {
+            let (lb, ub, v) = (lb.parse().ok()?, ub.parse().ok()?, v.parse().ok()?);
+            w(|b| b.write_constrained_whole_number(lb, ub, v), |_| String::new())
+        }
+        ["w-small", v] => {
+            let v = v.parse().ok()?;
+            w(|b| b.write_normally_small_non_negative_whole_number(v), |_| String::new())
+        }
+        ["w-semi", lb, v] => {
+            let (lb, v) = (lb.parse().ok()?, v.parse().ok()?);
+            w(|b| b.write_semi_constrained_whole_number(lb, v), |_| String::new())
+        }
+        ["w-unc", v] => {
+            let v = v.parse().ok()?;
+            w(|b| b.write_unconstrained_whole_number(v), |_| String::new())
+        }
+        ["w-idx", std, ext, i] => {
+            let (std, ext, i) = (std.parse().ok()?, pbool(ext)?, i.parse().ok()?);
+            w(|b| b.write_enumeration_index(std, ext, i), |_| String::new())
+        }
+        ["w-oct", lb, ub, ext, h] => {
+            let (lb, ub, ext, data) = (opt_u64(lb)?, opt_u64(ub)?, pbool(ext)?, unhex(h)?);
+            w(|b| b.write_octetstring(lb, ub, ext, &data), |_| String::new())
+        }
+        ["w-bits", lb, ub, ext, bits] => {
+            let (lb, ub, ext) = (opt_u64(lb)?, opt_u64(ub)?, pbool(ext)?);
+            let (bytes, len) = string_to_bits(bits)?;
+            // written from bit offset 3 of a shifted copy, so that the offset parameter is exercised
+            let mut shifted = BitBuffer::default();
+            use asn1rs::protocol::per::unaligned::BitWrite;
+            shifted.write_bits_with_len(&[0xA0], 3).ok()?;
+            shifted.write_bits_with_len(&bytes, len).ok()?;
+            w(|b| b.write_bitstring(lb, ub, ext, shifted.content(), 3, len as u64), |_| String::new())
+        }
+        // long values: generated on both sides, answered as length + hash, written and read back
+        ["rt-octn", lb, ub, ext, n, seed] => {
+            let (lb, ub, ext) = (opt_u64(lb)?, opt_u64(ub)?, pbool(ext)?);
+            let data = gen_bytes(n.parse().ok()?, seed.parse().ok()?);
+            let mut b = BitBuffer::default();
+            match b.write_octetstring(lb, ub, ext, &data) {
+                Err(e) => format!("err {}", per_err(&e)),
+                Ok(()) => {
+                    let mut rd = Bits::from((b.content(), b.bit_len()));
+                    let back = rd.read_octetstring(lb, ub, ext);
+                    let rt = match back {
+                        Ok(v) => format!("{} {}", b01(v == data), rd.remaining()),
+                        Err(e) => format!("readerr:{}", per_err(&e)),
+                    };
+                    format!("ok {} {:016x} {}", b.bit_len(), fnv_bits(b.content(), b.bit_len()), rt)
+                }
+            }
+        }
+        ["rt-bitsn", lb, ub, ext, n, seed] => {
+            let (lb, ub, ext) = (opt_u64(lb)?, opt_u64(ub)?, pbool(ext)?);
+            let n: usize = n.parse().ok()?;
+            let data = gen_bytes((n + 7) / 8, seed.parse().ok()?);
+            let mut b = BitBuffer::default();
+            match b.write_bitstring(lb, ub, ext, &data, 0, n as u64) {
+                Err(e) => format!("err {}", per_err(&e)),
+                Ok(()) => {
+                    let mut rd = Bits::from((b.content(), b.bit_len()));
+                    let back = rd.read_bitstring(lb, ub, ext);
+                    let rt = match back {
+                        Ok((v, l)) => {
+                            let same = l as usize == n
+                                && v.len() == (n + 7) / 8
+                                && bits_to_string(&v, n) == bits_to_string(&data, n);
+                            format!("{} {}", b01(same), rd.remaining())
+                        }
+                        Err(e) => format!("readerr:{}", per_err(&e)),
+                    };
+                    format!("ok {} {:016x} {}", b.bit_len(), fnv_bits(b.content(), b.bit_len()), rt)
+                }
+            }
+        }
+        ["r-nnbi", lb, ub, bits] => {
+            let (lb, ub) = (opt_u64(lb)?, opt_u64(ub)?);
+            r(bits, |b| b.read_non_negative_binary_integer(lb, ub), |v| v.to_string())?
+        }
+        ["r-len", lb, ub, bits] => {
+            let (lb, ub) = (opt_u64(lb)?, opt_u64(ub)?);
+            r(bits, |b| b.read_length_determinant(lb, ub), |v| v.to_string())?
+        }
+        ["r-2s", bl, bits] => {
+            let bl = bl.parse().ok()?;
+            r(bits, |b| b.read_2s_compliment_binary_integer(bl), |v| v.to_string())?
+        }
+        ["r-con", lb, ub, bits] => {
+            let (lb, ub) = (lb.parse().ok()?, ub.parse().ok()?);
+            r(bits, |b| b.read_constrained_whole_number(lb, ub), |v| v.to_string())?
+        }
+        ["r-small", bits] => r(bits, |b| b.read_normally_small_non_negative_whole_number(), |v| v.to_string())?,
+        ["r-semi", lb, bits] => {
+            let lb = lb.parse().ok()?;
+            r(bits, |b| b.read_semi_constrained_whole_number(lb), |v| v.to_string())?
+        }
+        ["r-unc", bits] => r(bits, |b| b.read_unconstrained_whole_number(), |v| v.to_string())?,
+        ["r-idx", std, ext, bits] => {
+            let (std, ext) = (std.parse().ok()?, pbool(ext)?);
+            r(bits, |b| b.read_enumeration_index(std, ext), |v| v.to_string())?
+        }
+        ["r-oct", lb, ub, ext, bits] => {
+            let (lb, ub, ext) = (opt_u64(lb)?, opt_u64(ub)?, pbool(ext)?);
+            r(bits, |b| b.read_octetstring(lb, ub, ext), |v| hex(&v))?
+        }
+        ["r-bits", lb, ub, ext, bits] => {
+            let (lb, ub, ext) = (opt_u64(lb)?, opt_u64(ub)?, pbool(ext)?);
+            r(bits, |b| b.read_bitstring(lb, ub, ext), |(v, l)| bits_to_string(&v, l as usize))?
+        }
+        _ => return None,
+    })
 }
